@@ -362,6 +362,33 @@ def fam_overlap3(c, tier):
             "judge_space": True, "extra_scales": (), "group_tree": True}
 
 
+def fam_diagonal(c, tier):
+    """two one-line boxes on the anti-diagonal: A upper-right, B lower-left, displaced equally along and across the lines;
+    boxes_flow > 0 (the across-lines position weighs more; +1: only it) -> A first, boxes_flow < 0 -> B first"""
+    bf = c.pick([1.0, Q(1, 2), -0.5, -1], "boxes_flow")
+    delta = c.pick([40, 64], "displacement")
+    a_first = c.pick([True, False], "A first in the content")
+    A = _line("ab", 20 + delta, 36 + delta, 20 + delta, 8)
+    B = _line("cd", 20, 36, 20, 8)
+    return {"family": "diagonal", "glyphs": (A + B) if a_first else (B + A), "params": (Q(1, 2), Q(1), Q(1, 2), Q(1, 4), bf),
+            "judge_space": True, "extra_scales": (), "expect_first": ("a", "b") if bf > 0 else ("c", "d")}
+
+
+def fam_overprint(c, tier):
+    """a glyph printed (almost) on top of its predecessor -- aligned in BOTH writing directions -- with detect_vertical=True,
+    optionally followed by a third glyph; only direction-neutral facts are judged (see lines_only_if / mirror_check)"""
+    du = c.pick([0, 2, 3], "shift along")
+    dv = c.pick([0, 2, 3], "shift across")
+    third = c.pick(["none", "next", "below"], "third glyph")
+    gl = [G("a", 0, 0, 8, 8), G("b", du, dv, 8, 8)]
+    if third == "next":
+        gl.append(G("c", du + 8, dv, 8, 8))
+    elif third == "below":
+        gl.append(G("c", du, dv - 8, 8, 8))
+    return {"family": "overprint", "glyphs": gl, "params": (Q(1, 2), Q(1), Q(1, 2), Q(1, 4), Q(1, 2)), "judge_space": True,
+            "extra_scales": (), "detect_vertical": True}
+
+
 def fam_noflow(c, tier):
     """boxes_flow=None: boxes of different heights side by side (and optionally a third one below), bottoms level or offset;
     documented order: by the position of the bottom-left corner"""
@@ -413,6 +440,8 @@ FAMILIES = {
     "hline-then-cross": (fam_hline_then_cross, lambda t: [2, 2, 2], "HV"),
     "overlap3": (fam_overlap3, lambda t: [3, 8], "H"),
     "noflow": (fam_noflow, lambda t: [3, 3], "H"),
+    "diagonal": (fam_diagonal, lambda t: [4], "HV"),
+    "overprint": (fam_overprint, lambda t: [3], "HV"),
     "chain-in-figure": (fam_chain_in_figure, lambda t: [27, len(CHAIN_GAPS) + 3] if t == "thorough" else [8, len(CHAIN_GAPS)], "H"),
 }
 
@@ -426,7 +455,7 @@ META = {
         "(two lines: vertical gap, height difference and start/end/centre offsets each on/below/above line_margin*height "
         "of the viewing line, either line viewing, either content order; neighbours-by-half-a-unit also translated so that the near edge lies on a line of Plane's 50-unit grid; proper-overlap shift family); chain (three lines of "
         "heights 8/16 with gaps around both tolerances, all 6 content orders: connected components of an asymmetric "
-        "relation); chain-in-figure (the chain arrangements as the content of a figure on a page that has no glyph of its own, all_texts=True: same expected grouping); hline-then-cross (a line of 2-3 glyphs followed by a glyph directly below/above its last or first glyph with along-overlap and across-distance on/below/above the thresholds, detect_vertical=True, both writing directions: only the determinate half -- a line holds only consecutive glyphs joined by its own direction's predicate -- is judged); overlap3 (a huge glyph, a small glyph inside it and a caption overlapping its edge, char_margin = line_margin = 0, all content orders: the closest pair, distance = bounding area minus both areas, must be merged first in page.groups); noflow (boxes_flow=None: two boxes of 1-3 lines side by side with level or offset bottoms, optionally a third box below, all content orders: output order must be by bottom edge downwards, equal bottoms left to right, as documented for None); triple-back (second glyph placed back over a wide first glyph, third glyph with its gap to the second on/below/above both margins); columns (1-2 columns x 1-3 rows, 1-2 lines per cell, single column also with a wide top cell, boxes_flow {1/4,1/2,3/4,0,0.0,-0.0,+1,-1}, content orders). Every "
+        "relation); chain-in-figure (the chain arrangements as the content of a figure on a page that has no glyph of its own, all_texts=True: same expected grouping); hline-then-cross (a line of 2-3 glyphs followed by a glyph directly below/above its last or first glyph with along-overlap and across-distance on/below/above the thresholds, detect_vertical=True, both writing directions: only the determinate half -- a line holds only consecutive glyphs joined by its own direction's predicate -- is judged); overlap3 (a huge glyph, a small glyph inside it and a caption overlapping its edge, char_margin = line_margin = 0, all content orders: the closest pair, distance = bounding area minus both areas, must be merged first in page.groups); diagonal (two one-line boxes on the anti-diagonal with equal displacement along and across, boxes_flow {1,1/2,-1/2,-1}, both content orders, horizontal and mirrored vertical writing: the across-lines position decides for boxes_flow > 0, the along-lines position for < 0); overprint (a glyph shifted by 0-3 units in both axes over its predecessor, optionally a third glyph, detect_vertical=True, both writing directions: wherever a consecutive pair is aligned in both directions the mirrored arrangement must give the mirrored lines); noflow (boxes_flow=None: two boxes of 1-3 lines side by side with level or offset bottoms, optionally a third box below, all content orders: output order must be by bottom edge downwards, equal bottoms left to right, as documented for None); triple-back (second glyph placed back over a wide first glyph, third glyph with its gap to the second on/below/above both margins); columns (1-2 columns x 1-3 rows, 1-2 lines per cell, single column also with a wide top cell, boxes_flow {1/4,1/2,3/4,0,0.0,-0.0,+1,-1}, content orders). Every "
         "family except columns is run in horizontal writing (detect_vertical=False) and mirrored into vertical writing "
         "(detect_vertical=True). Every arrangement is analysed at scale 1 and at 2^k, k in {-3,-1,1,4} (k=7 and k=10 on "
         "stated sub-families). A case is one arrangement with its LAParams (distinct by construction); non-trivial = the "
@@ -441,7 +470,7 @@ META = {
         "all coordinates and margins are dyadic rationals, so the implementation's float arithmetic is exact and comparisons are exact",
         "glyphs are LTChar objects built with a stub font; page box (0,0,P,P), P a power of two enclosing the arrangement with a margin of 16",
         "the default word_margin 0.1 and other non-dyadic margins are not explored (their products are not exact in binary floating point)",
-        "pairs of consecutive glyphs that satisfy the joining predicate of the *other* writing direction under detect_vertical are not judged (documentation silent)",
+        "where consecutive glyphs satisfy the joining predicate of the *other* writing direction under detect_vertical the predicates do not determine the lines; judged there: every line holds only consecutive glyphs joined by its own direction's predicate, and -- from the documented 'as if the pdf was rotated' -- the mirrored arrangement yields the mirrored lines",
         "in vertical writing, the box relation of single-glyph lines is not judged (the implementation makes them horizontal lines; documentation silent)",
         "space insertion is not judged for glyph pairs placed right-to-left in content order (the documentation defines no signed gap)",
         "the group tree is judged only in overlap3 and only where the documented closest-first rule is not overridden by the implementation's undocumented postponement of pairs with a box in between; box order is judged only on column grids and, for boxes_flow=None, in the noflow family (horizontal boxes only; the documentation is silent on vertical ones): full column-major order for |boxes_flow| < 1 (incl. 0, 0.0, -0.0), only top-to-bottom within each column for +1, only left-column-first for -1; hierarchical group shape is only compared across scales",
@@ -490,6 +519,8 @@ def materialise(gen, orient):
         case["group_tree"] = True
     if gen.get("bottom_left_order"):
         case["bottom_left_order"] = True
+    if gen.get("expect_first"):
+        case["expect_first"] = gen["expect_first"]
     if "column_major" in gen:
         case["column_major"] = gen["column_major"]
         case["cell_cols"] = gen["cell_cols"]
@@ -574,7 +605,7 @@ def judge(case):
     problems = []
     notj = []
     rd, lines, boxes, cross = expected(case)
-    nontrivial = any(len(l[0]) > 1 for l in lines) or any(len(b) > 1 for b in boxes) or (case["family"] == "columns" and len(boxes) > 1) or bool(case.get("group_tree")) or bool(case.get("bottom_left_order"))
+    nontrivial = any(len(l[0]) > 1 for l in lines) or any(len(b) > 1 for b in boxes) or (case["family"] == "columns" and len(boxes) > 1) or bool(case.get("group_tree")) or bool(case.get("bottom_left_order")) or bool(case.get("expect_first")) or case["family"] == "overprint"
     try:
         base = run_impl(case, 0)
     except FigureNotAnalysed as e:
@@ -585,6 +616,8 @@ def judge(case):
     if cross:
         notj.append("consecutive glyphs also aligned in the other writing direction under detect_vertical")
         problems += lines_only_if(case, base)
+        if not problems:
+            problems += mirror_check(case, base)
     else:
         problems += compare(case, rd, lines, boxes, base, notj)
         if case.get("group_tree") and not problems:
@@ -617,6 +650,40 @@ def lines_only_if(case, obs):
             if not M.chars_joined(rdd[d][i], rdd[d][j], lo, cm):
                 return [(f"C09/char-join:joined-without-alignment:{'horizontal' if d == 'H' else 'vertical'}-line",
                          f"glyphs {i},{j} not in one {d} line", ln)]
+    return []
+
+
+def mirror_check(case, obs):
+    """detect_vertical is documented to 'apply all the grouping steps as if the pdf was rotated': the arrangement mirrored
+    into the other writing direction must be grouped into the same lines, with the direction of every line of >= 2 glyphs
+    exchanged.  Used where a pair is aligned in both directions and the predicates alone do not determine the outcome."""
+    orient = case["orient"]
+    other = "V" if orient == "H" else "H"
+    boxes = []
+    for t, x0, y0, w, h in case["glyphs"]:
+        rd = M.to_reading((x0, y0, x0 + w, y0 + h), orient)
+        a0, b0, a1, b1 = M.from_reading(rd, other)
+        boxes.append((t, a0, b0, a1 - a0, b1 - b0))
+    mx = min(b[1] for b in boxes)
+    my = min(b[2] for b in boxes)
+    boxes = [(t, x0 - mx + 16, y0 - my + 16, w, h) for t, x0, y0, w, h in boxes]
+    ext = max(max(b[1] + b[3] for b in boxes), max(b[2] + b[4] for b in boxes)) + 16
+    P = 64
+    while P < ext:
+        P *= 2
+    m = dict(case, orient=other, glyphs=boxes, page=P)
+
+    def lines_of(o):
+        return sorted((ln[1], ln[0] if len(ln[1]) > 1 else "-") for ln in [l for b in o[0] for l in b[1]] + list(o[1]))
+
+    try:
+        mo = run_impl(m, 0)
+    except Exception as e:  # noqa
+        return [(f"C09/exception:{type(e).__name__}@mirrored-arrangement", "analysis returns", str(e)[:100])]
+    want = [(idx, {"H": "V", "V": "H", "-": "-"}[d]) for idx, d in lines_of(obs)]
+    got = lines_of(mo)
+    if got != want:
+        return [("C09/char-join:not-mirror-symmetric-under-detect_vertical", want, got)]
     return []
 
 
@@ -770,6 +837,13 @@ def compare(case, rd, lines, boxes, obs, notj):
                 {"boxes": obs_bx, "lines": found[:2] if found else None},
             )
         )
+        return problems
+    # ---- 5b. two boxes on the anti-diagonal: which one comes first is decided by the sign of boxes_flow
+    if case.get("expect_first"):
+        first = tuple(sorted(case["glyphs"][i][0] for ln in obs_boxes[0][1] for i in ln[1])) if obs_boxes else ()
+        if first != tuple(case["expect_first"]):
+            vert = any(b[0] == "V" for b in obs_boxes)
+            problems.append((f"C09/box-order:boxes_flow-weighting:{'vertical' if vert else 'horizontal'}-boxes", tuple(case["expect_first"]), first))
         return problems
     # ---- 5a. boxes_flow=None: documented order = position of the bottom-left corner (bottom edge from the top of the
     # page downwards, equal bottoms left to right)
